@@ -183,8 +183,12 @@ func (vm *VM) FindElement(name *IDName) (Element, error) {
 	if elem, ok := vm.globals[nameStr]; ok {
 		return elem, nil
 	}
-	// then look for local values
-	elem := vm.getCurrentScope().GetValue(nameStr)
+	// then look for local values (no scope yet: e.g. input-variable text)
+	scope := vm.getCurrentScope()
+	if scope == nil {
+		return nil, zerr.NameNotDefined(nameStr)
+	}
+	elem := scope.GetValue(nameStr)
 	if elem == nil {
 		return nil, zerr.NameNotDefined(nameStr)
 	}
@@ -197,8 +201,12 @@ func (vm *VM) FindElementWithModule(name *IDName) (Element, *Module, error) {
 	if elem, ok := vm.globals[nameStr]; ok {
 		return elem, NativeCodeModule, nil
 	}
-	// then look for local values
-	elem, moduleID := vm.getCurrentScope().GetValueWithModuleID(nameStr)
+	// then look for local values (no scope yet: e.g. input-variable text)
+	scope := vm.getCurrentScope()
+	if scope == nil {
+		return nil, nil, zerr.NameNotDefined(nameStr)
+	}
+	elem, moduleID := scope.GetValueWithModuleID(nameStr)
 	if elem == nil {
 		return nil, nil, zerr.NameNotDefined(nameStr)
 	}
@@ -260,6 +268,10 @@ func (vm *VM) SetElement(name *IDName, elem Element) error {
 
 // // internal functions
 func (vm *VM) getCurrentCallFrame() *CallFrame {
+	// empty call stack (e.g. while evaluating input-variable text)
+	if vm.csCount == 0 {
+		return nil
+	}
 	return vm.callStack[vm.csCount-1]
 }
 
